@@ -302,6 +302,10 @@ def run(ctx):
             c['ident_ext'] = ctx.rng.choice([None, '', 'ext', 'a/b', '?q=1'])
         hist['published-' + ('override' if r < 0.16 else 'as-written')] += 1
         pub_cases.append(c)
+    # corner cases always present: nothing / only empty strings set (update_from_sdc_location must refuse), one element
+    for vals in ([None] * n_el, [''] * n_el, [None, ''] * (n_el // 2), [None] * (n_el - 1) + ['x'], ['/'] + [None] * (n_el - 1)):
+        pub_cases.insert(0, {'vals': vals, 'ident_root': 'keep', 'ident_ext': 'keep',
+                             'probes': [{'root': None, 'vals': vals}, {'root': None, 'vals': [None] * n_el}]})
     fhist = Counter()
     fo_cases = [gen_foreign(ctx.rng, consts, fhist) for _ in range(ctx.n(1500, 30000))]
     # the two witnesses of DESIGN section 6 row 16 are always present
@@ -374,8 +378,8 @@ def run(ctx):
                     want = (p['root'] in (None, consts['ident_root'])) and \
                         all(pv is None or pv == tv for pv, tv in zip(p['vals'], c['vals']))
                     if got != want:
-                        ctx.fail(f'published scope {text!r} of {c["vals"]} is {"not " if want else ""}inside {p} expected, '
-                                 f'code says {got}',
+                        ctx.fail(f'published scope {text!r} of {c["vals"]} must {"" if want else "not "}be inside {p}, '
+                                 f'_scope_string_matches says {got}',
                                  {'stream': 'published', 'clause': 'inside' if want else 'not-inside'},
                                  {'stream': 'published', 'case': c, 'probe': p, 'scope': text, 'impl_trace': r,
                                   'oracle': {'verdict': 'fail', 'clause': 'inside iff every specified element equal'}})
